@@ -428,6 +428,24 @@ fn resolve<'a>(m: &'a Module, t: &Trace) -> Option<&'a Card> {
     cur.get_card(&t.index).ok()
 }
 
+/// The instructions the compiler appends after the last card of a function (scope-end pops, the
+/// implicit return / exit) are recorded under the index one past the last card: they belong to no
+/// card, so the property says nothing about a timeout that lands on them.
+fn is_function_epilogue(m: &Module, t: &Trace) -> bool {
+    let mut cur = m;
+    for ns in t.namespace.iter() {
+        match cur.submodules.iter().find(|(n, _)| n.as_str() == ns.as_ref()) {
+            Some((_, s)) => cur = s,
+            None => return false,
+        }
+    }
+    let ix = &t.index.card_index.indices;
+    match cur.functions.get(t.index.function) {
+        Some((_, f)) => ix.len() == 1 && ix[0] as usize == f.cards.len(),
+        None => false,
+    }
+}
+
 fn card_kind_name(c: &Card) -> String {
     c.name().to_string()
 }
@@ -533,6 +551,46 @@ pub fn examine(spec: &PathSpec, ctx: Option<&mut CaseCtx>) -> Vec<(Json, String)
             ErrKind::Stackoverflow => knobs.value_stack = mk.stack_height + 1,
             ErrKind::CallStackOverflow => knobs.call_stack = mk.call_depth,
             _ => {}
+        }
+    }
+    // ---- a timeout can be provoked at every instruction: sweep the budget over the whole run;
+    // wherever it expires, trace[0] must resolve to a card and so must every entry after it
+    {
+        let free = run_with(&p, &Knobs { budget: 100_000, ..Default::default() }, None);
+        let t = free.counters.dispatches;
+        let cap = if ctxo.as_deref().map(|c| c.tier == Tier::Thorough).unwrap_or(false) { 600 } else { 120 };
+        if free.panic.is_none() && t >= 2 && t < 50_000 {
+            let step = (t / cap).max(1);
+            let mut n = 2u64;
+            while n <= t {
+                let o = run_with(&p, &Knobs { budget: n, ..Default::default() }, None);
+                if let Some(ctx) = ctxo.as_deref_mut() {
+                    ctx.evaluation();
+                    ctx.count("budget_sweep_runs", 1);
+                }
+                if innermost(&o.result) == "Timeout" && o.panic.is_none() {
+                    if let Some(ctx) = ctxo.as_deref_mut() {
+                        ctx.count(&format!("reach:sweep_timeout_before:{}", crate::ctl::vmctl::opcode_name(o.counters.last_op)), 1);
+                    }
+                    let bad = if o.trace.is_empty() {
+                        Some("no trace entry at all".to_string())
+                    } else {
+                        o.trace
+                            .iter()
+                            .enumerate()
+                            .find(|(i, t)| resolve(&b.module, t).is_none() && !(*i == 0 && is_function_epilogue(&b.module, t)))
+                            .map(|(i, t)| format!("trace[{i}] = {t} resolves to no card"))
+                    };
+                    if let Some(bad) = bad {
+                        v.push((
+                            json!({"inv": "timeout-trace-resolves-to-nothing", "before": crate::ctl::vmctl::opcode_name(o.counters.last_op)}),
+                            format!("budget {n} (expires before {}): {bad}; trace = [{}]", crate::ctl::vmctl::opcode_name(o.counters.last_op), o.trace.iter().map(|t| describe(&b.module, t)).collect::<Vec<_>>().join("; ")),
+                        ));
+                        break;
+                    }
+                }
+                n += step;
+            }
         }
     }
     let out = run_with(&p, &knobs, fail_alloc);
